@@ -17,7 +17,7 @@ def run(c):
         c.notes.append("binding selftest: corrupted traces accepted: %s" % sorted(set(st0["corruptions"]) - set(st0["rejected"])))
     # DAGs found by TLC simulation of Election.tla: a multi-frame root causes a decision at one of its lower frames and the
     # re-vote then decides more frames; the application seals on the second of those blocks
-    casc = lc.run_exhaustive(c, ["corpus:cascade"], "order-independence", orders=2)
+    casc = lc.run_exhaustive(c, ["corpus:cascade", "corpus:structural"], "order-independence", orders=2)
     c.guard("corpus_seals_inside_a_cascade", casc["total"].get("traced_seals_inside_a_cascade_of_a_multi_frame_root", 0))
     res = lc.run_profile(c, "c01", c.pick(8, 120), "order-independence")
     st = res["stats"]
